@@ -956,6 +956,96 @@ Section NestedDetect.
   Qed.
 End NestedDetect.
 
+(* ---- C08: every history whose folder the traversal reaches gets a new generation ---- *)
+Section NestedScope.
+  Variable Hb : fmt -> bytes -> bytes.
+  Variable matches : list text -> text -> bool.
+  Variable C : Type.
+  Variable cdig : C -> text.
+  Variable ser : gen -> C.
+  Notation node := (node C).
+
+  Lemma route_own_root hs h : lh_root (root_hist hs) = [] -> In h hs -> lh_root (route_to hs (lh_root h)) = lh_root h.
+  Proof.
+    intros Hroot Hh. destruct (route_deepest hs (root_hist hs) (lh_root h)) as [H1 [_ H3]]; [unfold good; rewrite Hroot; reflexivity|].
+    fold (rooth hs) in H1, H3. fold (route_to hs (lh_root h)) in H1, H3. unfold good in H1.
+    assert (Hgood : good (lh_root h) h) by (unfold good; rewrite <- (app_nil_r (lh_root h)) at 2; apply is_prefix_app).
+    pose proof (H3 h Hh Hgood) as Hlen. apply is_prefix_spec in H1. destruct H1 as [s0 Es].
+    assert (s0 = []).
+    { apply (f_equal (@length text)) in Es. rewrite app_length in Es. destruct s0; [reflexivity|cbn [length] in Es; lia]. }
+    subst s0. rewrite app_nil_r in Es. symmetry. exact Es.
+  Qed.
+
+  Lemma fold_dir_present hs fmts no_dh spec (t : node) k : forall l s f, In k (dirs_of l) -> lh_root (route_to hs k) = k ->
+    sess_get (fst (fold_left (process_event Hb matches C hs fmts no_dh spec t) l (s, f))) k <> None.
+  Proof.
+    assert (Hkeep1 : forall s f e, sess_get s k <> None -> sess_get (fst (process_event Hb matches C hs fmts no_dh spec t (s, f) e)) k <> None).
+    { intros s f e Hs. destruct e as [p c|p k0]; cbn [process_event].
+      - unfold seal_file. destruct (seal _ _ _ _) as [es res]. cbn [fst]. destruct es; [exact Hs|]. unfold sess_add.
+        destruct (path_eqb_spec (lh_root (route_to hs p)) k) as [<-|Hne]; [rewrite sess_get_set_same; discriminate|rewrite (sess_get_set_other _ _ _ _ Hne); exact Hs].
+      - cbn [fst]. unfold record_dir.
+        assert (Hadd : forall s0 k1 q d sz es, sess_get s0 k <> None -> sess_get (sess_add s0 k1 q d sz es) k <> None).
+        { intros s0 k1 q d sz es H0. unfold sess_add. destruct (path_eqb_spec k1 k) as [<-|Hne]; [rewrite sess_get_set_same; discriminate|rewrite (sess_get_set_other _ _ _ _ Hne); exact H0]. }
+        destruct (strip_prefix (lh_root (route_to hs p)) p); [destruct (lh_parent (route_to hs p))|]; repeat apply Hadd; exact Hs. }
+    assert (Hkeep : forall l s f, sess_get s k <> None -> sess_get (fst (fold_left (process_event Hb matches C hs fmts no_dh spec t) l (s, f))) k <> None).
+    { induction l as [|e l IHl]; intros s1 f1 Hs1; [exact Hs1|]. cbn [fold_left].
+      destruct (process_event Hb matches C hs fmts no_dh spec t (s1, f1) e) as [s2 f2] eqn:Ep2. apply IHl.
+      change s2 with (fst (s2, f2)). rewrite <- Ep2. apply Hkeep1. exact Hs1. }
+    induction l as [|e l IH]; intros s0 f0 Hin Hk; [destruct Hin|]. cbn [fold_left].
+    destruct (process_event Hb matches C hs fmts no_dh spec t (s0, f0) e) as [s1 f1] eqn:Ep.
+    destruct e as [p c|p k0]; cbn [dirs_of flat_map app In] in Hin.
+    - apply IH; assumption.
+    - destruct Hin as [->|Hin]; [|apply IH; assumption]. apply Hkeep.
+      cbn [process_event] in Ep. injection Ep as <- _. unfold record_dir. rewrite Hk.
+      assert (Es : strip_prefix k k = []) by (rewrite <- (app_nil_r k) at 2; apply strip_prefix_app). rewrite Es.
+      assert (Hself : forall s2 q d sz es, sess_get (sess_add s2 k q d sz es) k <> None) by (intros; unfold sess_add; rewrite sess_get_set_same; discriminate).
+      destruct (lh_parent (route_to hs k)) as [par|]; [|apply Hself].
+      unfold sess_add at 1. destruct (path_eqb_spec par k) as [->|Hne]; [rewrite sess_get_set_same; discriminate|rewrite (sess_get_set_other _ _ _ _ Hne); apply Hself].
+  Qed.
+
+  Theorem visited_histories_write h0 kids hs req no_dh ip ifl t' o h :
+    wf_tree C (Dir h0 kids) -> load C cdig (Dir h0 kids) = inl hs ->
+    create_folder Hb matches C cdig ser (Dir h0 kids) req no_dh false ip ifl = (t', o) ->
+    let spec := set_patterns (latest_patterns (lh_gens (root_hist hs))) ip (pattern_file_lines ifl) in
+    In h hs -> In (lh_root h) (dirs_of (events matches C spec [] (Dir h0 kids))) ->
+    exists doc, In (lh_root h, doc) (o_written o).
+  Proof.
+    intros Hwf Hl Hc spec Hh Hvis. destruct (load_list_facts C cdig h0 kids hs Hl) as [Hroot _].
+    rewrite (run_is Hb matches C cdig ser h0 kids hs req no_dh ip ifl Hl) in Hc. injection Hc as _ <-. cbn [o_written].
+    pose proof (run_not_aborted Hb matches C cdig ser h0 kids hs req no_dh ip ifl Hwf Hl) as Hna.
+    destruct (commit_set C cdig ser InPlace _ _ hs (Dir h0 kids) (load_roots_NoDup C cdig _ _ Hwf Hl) (load_children_first C cdig _ hs Hl) Hna) as [_ Hwrote].
+    apply (proj2 (Hwrote h Hh)). left. apply fold_dir_present; [exact Hvis|apply route_own_root; assumption].
+  Qed.
+End NestedScope.
+
+(* ---- C12 over any nesting: nothing the effective patterns exclude gets a record, in whichever history ---- *)
+Section NestedVisible.
+  Variable Hb : fmt -> bytes -> bytes.
+  Variable matches : list text -> text -> bool.
+  Variable C : Type.
+  Variable cdig : C -> text.
+  Variable ser : gen -> C.
+
+  Lemma written_of_pair (a : node C) out w m1 m2 m3 ops i d : o_written (snd (a, mkObs out w m1 m2 m3 ops i d)) = w.
+  Proof. reflexivity. Qed.
+  Theorem nested_records_visible h0 kids hs req no_dh ip ifl :
+    wf_tree C (Dir h0 kids) -> load C cdig (Dir h0 kids) = inl hs -> req <> [] ->
+    let spec := set_patterns (latest_patterns (lh_gens (root_hist hs))) ip (pattern_file_lines ifl) in
+    forall k doc r, In (k, doc) (o_written (snd (create_folder Hb matches C cdig ser (Dir h0 kids) req no_dh false ip ifl))) ->
+      In r (g_records doc) -> visible matches spec [] (k ++ r_path r).
+  Proof.
+    intros Hwf Hl Hreq spec k doc r Hin Hr.
+    rewrite (run_is Hb matches C cdig ser h0 kids hs req no_dh ip ifl Hl), written_of_pair in Hin.
+    destruct (written_docs Hb matches C cdig ser h0 kids hs req no_dh ip ifl Hwf Hl k doc Hin) as [_ [HR [_ [_ P]]]].
+    pose proof (P r Hr) as Hev. destruct (HR r Hr) as [_ [Hne _]]. fold spec in Hev.
+    apply (ev_paths_split matches) in Hev.
+    pose proof (reported_are_events matches C spec (Dir h0 kids) [] (k ++ r_path r) eq_refl) as Hre.
+    destruct (proj2 Hre Hev) as [E|Hv].
+    - destruct k; [cbn in E; congruence|discriminate E].
+    - apply in_map_iff in Hv. destruct Hv as [[q d] [Eq Hq]]. cbn [fst] in Eq. subst q. eapply reported_visible. exact Hq.
+  Qed.
+End NestedVisible.
+
 (* ---- rename detection has nothing to do when no recorded path is absent: -dr then changes nothing ---- *)
 Section DrNothingMissing.
   Variable Hb : fmt -> bytes -> bytes.
